@@ -6,7 +6,7 @@ From Coq Require Import Ascii String List Bool Arith ZArith NArith Lia.
 From PTBase Require Import Exn PyStr PyNum PyVal Fmt FixedFormat.
 From PTModel Require Import Fortran.
 From Gen Require Import GenTables.
-From P Require Import Num Names InconIO Wf Lines Blocks RoundTrip Idem Fields Fits.
+From P Require Import Num Names InconIO Wf Lines Blocks RoundTrip Idem Fields Fits Stable.
 Import ListNotations.
 Open Scope nat_scope.
 Open Scope list_scope.
@@ -77,6 +77,29 @@ Theorem second_write_identical_fits nv check reset i : wf_fits nv check reset i 
   exists ls j, write reset i = Ok ls /\ read nv check ls = Ok j /\ write reset j = Ok ls.
 Proof. intros W I. apply second_write_identical; [apply wf_fits_wf; exact W|exact I]. Qed.
 
+(** the second write, without any per-field hypothesis: [stable_hyp] (Stable.v) *)
+Definition stable_hyp (reset : bool) (i : incon) : bool :=
+  match the_layouts with Ok L => stableb L reset i | Raise _ => false end.
+Theorem write_idem_stable_L L nv check reset i : layouts_ok L = true ->
+  wfb_fits L nv check reset i = true -> stableb L reset i = true ->
+  write_L L reset (canon_L L reset i) = write_L L reset i.
+Proof.
+  intros HL W S. apply write_idem_L; [exact HL|apply (wfb_len5 L nv check reset); apply wfb_fits_wfb; exact W|].
+  exact (stable_idemb L nv check reset i W S).
+Qed.
+Theorem write_idem_stable nv check reset i : wf_fits nv check reset i = true -> stable_hyp reset i = true ->
+  write reset (canon reset i) = write reset i.
+Proof.
+  destruct the_layouts_ok as [L [EL [HL _]]]. unfold wf_fits, stable_hyp, write, canon. rewrite EL. cbn [bind].
+  apply write_idem_stable_L. exact HL.
+Qed.
+Theorem second_write_identical_stable nv check reset i : wf_fits nv check reset i = true -> stable_hyp reset i = true ->
+  exists ls j, write reset i = Ok ls /\ read nv check ls = Ok j /\ write reset j = Ok ls.
+Proof.
+  intros W S. destruct (read_write_fits _ _ _ _ W) as [ls [Wr Rd]]. exists ls, (canon reset i).
+  repeat split; [exact Wr|exact Rd|]. rewrite (write_idem_stable _ _ _ _ W S). exact Wr.
+Qed.
+
 (** ** what the object read back keeps *)
 Lemma cn_is_some f o : is_some (cn f o) = is_some o.
 Proof. destruct o as [x|]; [destruct (cn_some f x) as [y ->]; reflexivity|reflexivity]. Qed.
@@ -137,26 +160,27 @@ Proof. intros F Hl. unfold used_prec. rewrite F. apply Nat.leb_le in Hl. rewrite
 Definition R (ng : bool) (m e : Z) : option pnum := Some (PDy ng m e).
 (** TOUGHREACT, two blocks, five variables on two lines (a negative value with a 3-digit
     exponent among them), permeabilities, nseq/nadd on one block, porosity absent on the
-    other, a digit-blank-digit name, timing kept *)
+    other (whose permeability triple is all zero), a digit-blank-digit name, timing kept *)
 Definition ex_tr : incon :=
   {| sim := TOUGHREACT;
      blocks := [ {| bname := s2l "AB105"; nseq := Some 3%Z; nadd := Some 1%Z; porosity := R false 3602879701896397 (-55);
                     perm := Some (PDy false 322359586229913 (-92), PDy false 3961408125713217 (-95), PDy false 6338253001141147 (-101));
                     vars := [R false 25325 2; R false 5 2; R true 3873374817130363 (-400); R false 8720301752336693 347; R false 0 0] |};
                  {| bname := s2l "  a 7"; nseq := None; nadd := None; porosity := None;
-                    perm := Some (PDy false 3961408125713217 (-95), PDy false 3961408125713217 (-95), PDy false 3961408125713217 (-95));
+                    perm := Some (PDy false 0 0, PDy false 0 0, PDy false 0 0);     (* an impermeable block: a triple all the same *)
                     vars := [R false 103125 5; R false 31 (-1); R true 399 (-2); R false 1 (-2); R false 375 2] |} ];
      timing_ := Some {| kcyc := Some 11100%Z; iter := Some 40102%Z; nm := Some 1%Z; tstart := R false 0 0; sumtim := R false 7244475132352135 (-37) |} |}.
-Example ex_tr_wf : wf_fits (Some 5) true false ex_tr = true /\ idem_hyp false ex_tr = true.
-Proof. vm_compute. split; reflexivity. Qed.
+Example ex_tr_wf : wf_fits (Some 5) true false ex_tr = true /\ idem_hyp false ex_tr = true /\ stable_hyp false ex_tr = true.
+Proof. vm_compute. repeat split; reflexivity. Qed.
 (** TOUGH2, no blocks at all / one block with one variable, no num_variables, timing dropped by reset *)
 Definition ex_empty : incon := {| sim := TOUGH2; blocks := []; timing_ := None |}.
 Definition ex_t2 : incon :=
   {| sim := TOUGH2;
      blocks := [ {| bname := s2l "  aab"; nseq := None; nadd := None; porosity := R false 1 (-2); perm := None; vars := [R false 3125 5] |} ];
      timing_ := Some {| kcyc := Some 1%Z; iter := Some 2%Z; nm := Some 3%Z; tstart := R false 0 0; sumtim := R false 375 2 |} |}.
-Example ex_t2_wf : wf_fits None true true ex_empty = true /\ idem_hyp true ex_empty = true /\
-                   wf_fits None false true ex_t2 = true /\ idem_hyp true ex_t2 = true /\ wf_fits (Some 1) false false ex_t2 = true.
+Example ex_t2_wf : wf_fits None true true ex_empty = true /\ stable_hyp true ex_empty = true /\
+                   wf_fits None false true ex_t2 = true /\ stable_hyp true ex_t2 = true /\ wf_fits (Some 1) false false ex_t2 = true /\
+                   stable_hyp false ex_t2 = true.
 Proof. vm_compute. repeat split; reflexivity. Qed.
 Example ex_tr_file : match write false ex_tr with Ok ls => length ls | Raise _ => 0 end = 9.
 Proof. vm_compute. reflexivity. Qed.
@@ -225,4 +249,37 @@ Proof.
   destruct (write false j) as [ls2|] eqn:W2; [|discriminate].
   apply andb_prop in H as [H1 H2]. apply negb_true_iff in H1.
   exists w_header, ls, j, ls2. repeat split; assumption.
+Qed.
+
+(** 3. a value too wide for its columns is written with fewer decimals; when the rounding at that
+       precision carries into a shorter exponent, the value read back fits with MORE decimals and
+       the second file differs in that field (-9.9999999999996e-100 in 20.13e: ' -1.000000000000e-99'
+       then '-1.0000000000000e-99').  (guard in [stable_hyp]: the same-precision clause of [stable_ok]) *)
+Definition w_lowered : incon :=
+  {| sim := TOUGH2;
+     blocks := [ {| bname := s2l "AAA 1"; nseq := None; nadd := None; porosity := R false 3602879701896397 (-55); perm := None;
+                    vars := [R true 4925250774549113 (-381); R false 5 2] |} ];
+     timing_ := None |}.
+Definition lowered_witness_check : bool :=
+  wf_fits (Some 2) true true w_lowered && negb (stable_hyp true w_lowered) &&
+  match write true w_lowered with
+  | Ok ls => match read (Some 2) true ls with
+             | Ok j => match write true j with
+                       | Ok ls2 => negb (lines_eqb ls ls2) && lines_eqb (firstn 2 ls ++ skipn 3 ls) (firstn 2 ls2 ++ skipn 3 ls2)
+                       | Raise _ => false end
+             | Raise _ => false end
+  | Raise _ => false end.
+Lemma lowered_witness_checked : lowered_witness_check = true.
+Proof. vm_compute. reflexivity. Qed.
+Theorem lowered_precision_rewrite_refuted :
+  exists i ls j ls2, wf_fits (Some 2) true true i = true /\ stable_hyp true i = false /\ write true i = Ok ls /\
+                     read (Some 2) true ls = Ok j /\ write true j = Ok ls2 /\ lines_eqb ls ls2 = false.
+Proof.
+  pose proof lowered_witness_checked as H. unfold lowered_witness_check in H.
+  apply andb_prop in H as [H H3]. apply andb_prop in H as [Hwf Hst]. apply negb_true_iff in Hst.
+  destruct (write true w_lowered) as [ls|] eqn:W; [|discriminate].
+  destruct (read (Some 2) true ls) as [j|] eqn:Rd; [|discriminate].
+  destruct (write true j) as [ls2|] eqn:W2; [|discriminate].
+  apply andb_prop in H3 as [H1 _]. apply negb_true_iff in H1.
+  exists w_lowered, ls, j, ls2. repeat split; assumption.
 Qed.
